@@ -18,10 +18,10 @@ P = "C11"
 
 META = dict(
     level="model_checking",
-    encoded=["output.swan.to_swan", "core.swan.SwanSpecFile (write_header, write_spectra, read, _read_header)", "input.swan.read_swan", "SpecDataset._check_and_stack_dims", "output.ww3.to_ww3 + input.ww3.from_ww3", "output.netcdf.to_netcdf (packing parameters)"],
-    encoded_files=["wavespectra/core/swan.py", "wavespectra/output/swan.py", "wavespectra/input/swan.py", "wavespectra/specdataset.py", "wavespectra/output/ww3.py", "wavespectra/input/ww3.py", "wavespectra/output/netcdf.py"],
-    bounds="SWAN ASCII: 1-3 times x (2 stations | 2x3 and 3x2 lat-lon grids) x 2 frequencies x 2-3 directions, every energy density a symbolic real in [0, 100] (plus all-zero and all-missing spectra at chosen positions), plain and .gz files, chunked writing with ntime not dividing the number of times, sorted and unsorted directions; WW3: 2 times x 2 sites, symbolic densities; netCDF: the encoding dictionary the writer really hands to xarray, against the CF packing contract over symbolic values",
-    outside="the text of each number (printf/strtod contract stub: a printed-then-parsed number is within half a unit of its last printed digit); gzip, netCDF and JSON libraries; Octopus, Funwave and JSON writers (their files are built from dozens of derived statistics / random phases / library serialisers: not encoded); IEEE rounding",
+    encoded=["output.swan.to_swan", "core.swan.SwanSpecFile (write_header, write_spectra, read, _read_header)", "input.swan.read_swan", "SpecDataset._check_and_stack_dims", "output.ww3.to_ww3 + input.ww3.from_ww3", "output.netcdf.to_netcdf (packing parameters)", "output.funwave.to_funwave/funwave_spectrum + input.funwave.read_funwave (one spectrum, clip=False)"],
+    encoded_files=["wavespectra/core/swan.py", "wavespectra/output/swan.py", "wavespectra/input/swan.py", "wavespectra/specdataset.py", "wavespectra/output/ww3.py", "wavespectra/input/ww3.py", "wavespectra/output/netcdf.py", "wavespectra/output/funwave.py", "wavespectra/input/funwave.py"],
+    bounds="SWAN ASCII: 1-3 times x (2 stations | 2x3 and 3x2 lat-lon grids) x 2 frequencies x 2-3 directions, every energy density a symbolic real in [0, 100] (plus all-zero and all-missing spectra at chosen positions), plain and .gz files, chunked writing with ntime not dividing the number of times, sorted and unsorted directions; WW3: 2 times x 2 sites, symbolic densities; netCDF: the encoding dictionary the writer really hands to xarray, against the CF packing contract over symbolic values; Funwave: one spectrum of 3 frequencies x 3-4 directions, clip=False, every density symbolic in [0.001, 50] with the peak on the middle frequency (tp must exist)",
+    outside="the text of each number (printf/strtod contract stub: a printed-then-parsed number is within half a unit of its last printed digit); gzip, netCDF and JSON libraries; Octopus and JSON writers (the Octopus file is built from two dozen derived statistics per record, JSON is a library serialiser: not encoded); Funwave with clipping or several spectra (zip archive); IEEE rounding",
     assumptions=["energy densities are finite reals in [0, 100]", "coordinates are exactly representable in the printed precision"],
 )
 
@@ -232,3 +232,50 @@ def netcdf_packing(env):
     env.claim(AND(p >= -(2**31), p <= 2**31 - 1), "packed value fits int32 over the whole stated range")
     env.claim(p != fill, "a valid density never collides with the fill value")
     env.claim(AND(back - x <= 0.5 * scale * (1 + 1e-9), x - back <= 0.5 * scale * (1 + 1e-9)), "unpack(pack(x)) within half the scale factor")
+
+
+@harness(P, quick=[dict(dirs=(0.0, 90.0, 180.0, 270.0)), dict(dirs=(30.0, 150.0, 270.0))], thorough=[dict(dirs=(45.0, 135.0, 225.0, 315.0)), dict(dirs=(350.0, 80.0, 170.0, 260.0))], max_paths=2000, time_budget=400)
+def funwave_roundtrip(env, dirs):
+    """to_funwave(clip=False) -> real file -> read_funwave for ONE spectrum: amplitude a = sqrt(8 E df dd)/2 printed with
+    %12.8f and squared back: every bin returns at its own frequency and direction within the format's resolution."""
+    import wavespectra.output.funwave as OF
+    import wavespectra.input.funwave as IF
+    f = np.array([0.1, 0.2, 0.3])
+    d = np.array(dirs)
+    vals = env.array("e", (len(f), len(d)), lo=0.0, hi=50.0)
+    env.assume(AND(*[v >= 0.001 for v in vals.ravel()]))
+    # tp needs an interior peak: make the middle frequency the largest in the direction-integrated spectrum
+    e1 = [sum(vals[i, :]) for i in range(len(f))]
+    env.assume(AND(e1[1] > e1[0], e1[1] > e1[2]))
+    ds = xr.Dataset({"efth": (("freq", "dir"), vals)}, coords={"freq": f, "dir": d})
+    tmp = tempfile.mkdtemp(prefix="vt-c11-")
+    fn = os.path.join(tmp, "spectrum.txt")
+    try:
+        with env.stubs(*ST.peak_stubs(), lambda: ST.float_identity(OF), lambda: TL.text_layer(OF, IF)), env.lazy_sqrt():
+            ds.spec.to_funwave(fn, clip=False)
+            out = IF.read_funwave(fn)
+            o = out.efth.transpose("freq", "dir")
+            env.claim(np.allclose(o.freq.values, f), "frequencies round-trip", {"got": o.freq.values.tolist()})
+            env.claim(np.allclose(np.sort(o.dir.values % 360), np.sort(d % 360)), "directions round-trip (modulo 360)", {"got": o.dir.values.tolist()})
+            if not np.allclose(np.sort(o.dir.values % 360), np.sort(d % 360)):
+                return
+            df = np.gradient(f)
+            dd = 360.0 / len(d)
+            conds = []
+            for j, dj in enumerate(d):
+                jo = int(np.argmin(np.abs(((o.dir.values - dj + 180) % 360) - 180)))
+                for i in range(len(f)):
+                    got = env.resolve(o.values[i, jo])
+                    if isnan(got):
+                        conds.append(False)
+                        continue
+                    # a' within 0.5e-8 of a = sqrt(2 E df dd); E' = a'^2 / (2 df dd)  =>  |E' - E| <= (2 a eps + eps^2)/(2 df dd)
+                    e = vals[i, j]
+                    k = 2 * df[i] * dd
+                    eps = 0.5e-8 * (1 + 1e-6)
+                    amax = float(np.sqrt(k * 50.0))
+                    tol = (2 * amax * eps + eps * eps) / k + 1e-12
+                    conds.append(AND(got - e <= tol, e - got <= tol))
+            env.claim(AND(*conds), "every energy density returns at its own frequency and direction within the resolution of %12.8f amplitudes")
+    finally:
+        shutil.rmtree(tmp, ignore_errors=True)
